@@ -405,7 +405,8 @@ class Sim:
             "NO_EXIT_ON_CTRL_D": "",
         }
 
-    def spawn_shell(self, argv, env_extra=None, stdin=None, stdout=None, stderr=None, pty_mode=False, cwd=None):
+    def spawn_shell(self, argv, env_extra=None, stdin=None, stdout=None, stderr=None, pty_mode=False, cwd=None,
+                    launcher=False):
         env = self.base_env()
         env.pop("NO_EXIT_ON_CTRL_D")
         if os.environ.get("LLVM_PROFILE_FILE"):
@@ -443,14 +444,42 @@ class Sim:
                 # nothing else may be inherited
                 os.closerange(3, 1024)
                 reset_signal_state()
+                if launcher and pty_mode:
+                    # the shell is started by a launcher that stays the session and group leader (like `sh -c 'cicada'`):
+                    # the shell is then an ordinary member of the terminal's foreground group, not its leader
+                    p2 = os.fork()
+                    if p2 != 0:
+                        for sig in (signal.SIGINT, signal.SIGQUIT, signal.SIGTSTP, signal.SIGTTIN, signal.SIGTTOU, signal.SIGHUP):
+                            signal.signal(sig, signal.SIG_IGN)
+                        code = 126
+                        try:
+                            while True:
+                                try:
+                                    _, st = os.waitpid(p2, 0)
+                                except InterruptedError:
+                                    continue
+                                code = os.WEXITSTATUS(st) if os.WIFEXITED(st) else 128 + os.WTERMSIG(st)
+                                break
+                        finally:
+                            os._exit(code)
                 os.execve(CICADA_BIN, [CICADA_BIN] + argv, env)
             finally:
                 os._exit(127)
         if pty_mode:
             os.close(slave)
         self.shell_pid = pid
+        self.reap_pid = pid
+        self.launcher = bool(launcher and pty_mode)
         self.names[pid] = "shell"
         return pid
+
+    def shell_said_hello(self, pid):
+        """with a launcher in between, the process to look at is the one that said hello; the one to reap is the
+        launcher (it exits with the shell's status)"""
+        if getattr(self, "launcher", False) and pid != self.shell_pid:
+            self.names[self.shell_pid] = "launcher"
+            self.shell_pid = pid
+            self.names[pid] = "shell"
 
     def _shell_line(self):
         if b"\n" in self.shell_rbuf:
@@ -464,7 +493,7 @@ class Sim:
         if self.shell_status is not None:
             return self.shell_status
         try:
-            p, st = os.waitpid(self.shell_pid, os.WNOHANG)
+            p, st = os.waitpid(getattr(self, "reap_pid", None) or self.shell_pid, os.WNOHANG)
         except ChildProcessError:
             self.shell_status = -1
             return -1
@@ -664,6 +693,8 @@ class Sim:
                     pass
         if self.shell_pid:
             victims.add(self.shell_pid)
+        if getattr(self, "reap_pid", None):
+            victims.add(self.reap_pid)
         for pid in victims:
             try:
                 os.kill(pid, signal.SIGKILL)
@@ -678,7 +709,7 @@ class Sim:
             p.close()
         if self.shell_pid and self.shell_status is None:
             try:
-                os.waitpid(self.shell_pid, 0)
+                os.waitpid(getattr(self, "reap_pid", None) or self.shell_pid, 0)
             except OSError:
                 pass
         for s in (self.shell_conn, self.ctl_listen, self.pup_listen):
